@@ -106,10 +106,16 @@ func (e *Engine) yamlIntrinsic(fn *ssa.Function, full string, args []Value) (Val
 		sv := (*np.slot).(*StructVal)
 		kind := *structField(nt, sv, "Kind")
 		if kt := kind.(*Term); !kt.konst || kt.iv != yScalarNode {
-			unsupported("yaml.Node.Decode on non-scalar node")
+			// the library's own decoder on a collection: sequences become []any,
+			// mappings Go maps (map[string]any) - no ordered maps, no key order
+			outI := args[1].(IfaceVal)
+			out, ok := outI.val.(PtrVal)
+			if !ok || out.slot == nil || !isIfaceType(outI.typ.Underlying().(*types.Pointer).Elem()) {
+				unsupported("yaml.Node.Decode of a collection into %v", outI.typ)
+			}
+			assign(out.slot, e.yamlNativeDecode(nt, sv, 0))
+			return IfaceVal{}, true
 		}
-		tag := e.mustStr(*structField(nt, sv, "Tag"), "yaml.Node.Decode tag")
-		val := (*structField(nt, sv, "Value")).(StrVal)
 		outI := args[1].(IfaceVal)
 		out, ok := outI.val.(PtrVal)
 		if !ok || out.slot == nil {
@@ -118,50 +124,7 @@ func (e *Engine) yamlIntrinsic(fn *ssa.Function, full string, args []Value) (Val
 		if !isIfaceType(outI.typ.Underlying().(*types.Pointer).Elem()) {
 			unsupported("yaml.Node.Decode into non-interface %v", outI.typ)
 		}
-		if tag == "" || tag == "!" {
-			// untagged scalar: yaml.v3 resolves the plain spelling (quoted styles are strings)
-			style := *structField(nt, sv, "Style")
-			if st, ok := style.(*Term); ok && st.konst && st.iv&(int64(yaml.SingleQuotedStyle|yaml.DoubleQuotedStyle|yaml.LiteralStyle|yaml.FoldedStyle)) != 0 {
-				tag = "!!str"
-			} else {
-				assign(out.slot, e.resolvePlainScalar(val))
-				return IfaceVal{}, true
-			}
-		}
-		switch tag {
-		case "!!str":
-			assign(out.slot, IfaceVal{typ: types.Typ[types.String], val: val})
-		case "!!null":
-			assign(out.slot, IfaceVal{})
-		case "!!bool", "!!int", "!!float":
-			// the real library resolves the (concrete) spelling under its tag:
-			// True/yes-style booleans, 0x/0o/0b and _-separated integers, ...
-			cs := e.mustStr(val, "yaml "+tag+" value")
-			var x any
-			rn := yaml.Node{Kind: yaml.ScalarNode, Tag: tag, Value: cs}
-			if err := rn.Decode(&x); err != nil {
-				return e.newError(mkStr("yaml: " + err.Error())), true
-			}
-			switch v := x.(type) {
-			case bool:
-				assign(out.slot, IfaceVal{typ: types.Typ[types.Bool], val: mkBool(v)})
-			case int:
-				assign(out.slot, IfaceVal{typ: types.Typ[types.Int], val: mkInt(int64(v))})
-			case int64:
-				assign(out.slot, IfaceVal{typ: types.Typ[types.Int64], val: mkInt(v)})
-			case float64:
-				assign(out.slot, IfaceVal{typ: types.Typ[types.Float64], val: FloatVal{v}})
-			case string:
-				assign(out.slot, IfaceVal{typ: types.Typ[types.String], val: mkStr(v)})
-			case nil:
-				assign(out.slot, IfaceVal{})
-			default:
-				unsupported("yaml %s value %q decodes to %T", tag, cs, x)
-			}
-		default:
-			unsupported("yaml.Node.Decode with tag %s", tag)
-		}
-		return IfaceVal{}, true
+		return e.yamlDecodeScalar(nt, sv, out.slot), true
 	case "(*gopkg.in/yaml.v3.Node).Encode":
 		np := args[0].(PtrVal)
 		if np.slot == nil {
@@ -654,4 +617,138 @@ func (e *Engine) copyYAMLTree(n PtrVal, depth int) PtrVal {
 	slot := new(Value)
 	*slot = cp
 	return PtrVal{slot}
+}
+
+// yamlNativeDecode models yaml.v3 decoding a node into an empty interface:
+// scalars resolve as usual, sequences become []interface{}, mappings become
+// map[string]interface{} (a Go map: the engine explores its iteration orders),
+// aliases are followed. Merge keys and non-string keys are outside the model.
+func (e *Engine) yamlNativeDecode(nt types.Type, sv *StructVal, depth int) IfaceVal {
+	if depth > 40 {
+		unsupported("yaml.Node.Decode: nesting deeper than 40 (cyclic aliases?)")
+	}
+	anyT := types.NewInterfaceType(nil, nil)
+	kind := (*structField(nt, sv, "Kind")).(*Term)
+	if !kind.konst {
+		unsupported("yaml.Node.Decode on a node of symbolic kind")
+	}
+	child := func(v Value) *StructVal {
+		p, ok := v.(PtrVal)
+		if !ok || p.slot == nil {
+			unsupported("yaml.Node.Decode: nil child node")
+		}
+		return (*p.slot).(*StructVal)
+	}
+	content := func() []Value {
+		c, _ := (*structField(nt, sv, "Content")).(SliceVal)
+		return sliceElems(c)
+	}
+	switch kind.iv {
+	case yAliasNode:
+		return e.yamlNativeDecode(nt, child(*structField(nt, sv, "Alias")), depth+1)
+	case 1: // document
+		cs := content()
+		if len(cs) != 1 {
+			unsupported("yaml.Node.Decode: document node with %d children", len(cs))
+		}
+		return e.yamlNativeDecode(nt, child(cs[0]), depth+1)
+	case yScalarNode:
+		slot := new(Value)
+		*slot = IfaceVal{}
+		if r := e.yamlDecodeScalar(nt, sv, slot); r.typ != nil {
+			unsupported("yaml.Node.Decode: a scalar inside a collection fails to decode")
+		}
+		iv, _ := (*slot).(IfaceVal)
+		return iv
+	case ySequenceNode:
+		var elems []Value
+		for _, c := range content() {
+			elems = append(elems, e.yamlNativeDecode(nt, child(c), depth+1))
+		}
+		if elems == nil {
+			return IfaceVal{typ: types.NewSlice(anyT), val: SliceVal{arr: &ArrayVal{}, len: 0, cap: 0}}
+		}
+		return IfaceVal{typ: types.NewSlice(anyT), val: mkSlice(elems)}
+	case yMappingNode:
+		cs := content()
+		mo := &MapObj{}
+		for i := 0; i+1 < len(cs); i += 2 {
+			k := child(cs[i])
+			if tag, _ := concreteStr(*structField(nt, k, "Tag")); tag == "!!merge" {
+				unsupported("yaml.Node.Decode: merge key inside a natively decoded mapping")
+			}
+			kv := e.yamlNativeDecode(nt, k, depth+1)
+			ks, isStr := kv.val.(StrVal)
+			if kv.typ == nil || !isStr {
+				unsupported("yaml.Node.Decode: non-string key inside a natively decoded mapping")
+			}
+			val := e.yamlNativeDecode(nt, child(cs[i+1]), depth+1)
+			replaced := false
+			for _, en := range mo.entries {
+				if e.decide(strEq(en.key.(StrVal), ks)) {
+					en.val = val
+					replaced = true
+					break
+				}
+			}
+			if !replaced {
+				mo.entries = append(mo.entries, &MapEntry{key: ks, val: val})
+			}
+		}
+		return IfaceVal{typ: types.NewMap(types.Typ[types.String], anyT), val: MapVal{m: mo}}
+	}
+	unsupported("yaml.Node.Decode on node kind %d", kind.iv)
+	return IfaceVal{}
+}
+
+// yamlDecodeScalar models (*yaml.Node).Decode of a scalar node into an empty
+// interface; the result is the error the library would return (nil interface
+// on success).
+func (e *Engine) yamlDecodeScalar(nt types.Type, sv *StructVal, slot *Value) IfaceVal {
+	tag := e.mustStr(*structField(nt, sv, "Tag"), "yaml.Node.Decode tag")
+	val := (*structField(nt, sv, "Value")).(StrVal)
+	if tag == "" || tag == "!" {
+		// untagged scalar: yaml.v3 resolves the plain spelling (quoted styles are strings)
+		style := *structField(nt, sv, "Style")
+		if st, ok := style.(*Term); ok && st.konst && st.iv&(int64(yaml.SingleQuotedStyle|yaml.DoubleQuotedStyle|yaml.LiteralStyle|yaml.FoldedStyle)) != 0 {
+			tag = "!!str"
+		} else {
+			assign(slot, e.resolvePlainScalar(val))
+			return IfaceVal{}
+		}
+	}
+	switch tag {
+	case "!!str":
+		assign(slot, IfaceVal{typ: types.Typ[types.String], val: val})
+	case "!!null":
+		assign(slot, IfaceVal{})
+	case "!!bool", "!!int", "!!float":
+		// the real library resolves the (concrete) spelling under its tag:
+		// True/yes-style booleans, 0x/0o/0b and _-separated integers, ...
+		cs := e.mustStr(val, "yaml "+tag+" value")
+		var x any
+		rn := yaml.Node{Kind: yaml.ScalarNode, Tag: tag, Value: cs}
+		if err := rn.Decode(&x); err != nil {
+			return e.newError(mkStr("yaml: " + err.Error()))
+		}
+		switch v := x.(type) {
+		case bool:
+			assign(slot, IfaceVal{typ: types.Typ[types.Bool], val: mkBool(v)})
+		case int:
+			assign(slot, IfaceVal{typ: types.Typ[types.Int], val: mkInt(int64(v))})
+		case int64:
+			assign(slot, IfaceVal{typ: types.Typ[types.Int64], val: mkInt(v)})
+		case float64:
+			assign(slot, IfaceVal{typ: types.Typ[types.Float64], val: FloatVal{v}})
+		case string:
+			assign(slot, IfaceVal{typ: types.Typ[types.String], val: mkStr(v)})
+		case nil:
+			assign(slot, IfaceVal{})
+		default:
+			unsupported("yaml %s value %q decodes to %T", tag, cs, x)
+		}
+	default:
+		unsupported("yaml.Node.Decode with tag %s", tag)
+	}
+	return IfaceVal{}
 }
